@@ -445,7 +445,7 @@ class Frame:
 
 
 class Encoding:
-    def __init__(self, facts: ModuleFacts, threads: List[Tuple], channels: List[str], preexisting: List[str], bounds: Bounds):
+    def __init__(self, facts: ModuleFacts, threads: List[Tuple], channels: List[str], preexisting: List[str], bounds: Bounds, premsgs: Optional[Dict[str, List[int]]] = None, init_attrs: Optional[Dict[str, Any]] = None):
         from fnmatch import fnmatch
 
         self.facts = facts
@@ -460,6 +460,12 @@ class Encoding:
         self.match = {(c, p): bool(fnmatch(ch, p)) for c, ch in enumerate(channels) for p in self.patterns}
         self.msg_chan: Dict[int, int] = {}
         self.msg_thread: Dict[int, int] = {}
+        self.init_attrs = dict(init_attrs or {})
+        self.premsgs = {ch: list(v) for ch, v in (premsgs or {}).items()}  # messages already queued when the threads start
+        for ch, mids in self.premsgs.items():
+            for m in mids:
+                self.msg_chan[m] = channels.index(ch)
+                self.msg_thread[m] = -1
         for t, th in enumerate(threads):
             if th[0] == "pub":
                 for (c, m) in th[1]:
@@ -485,6 +491,8 @@ class Encoding:
             v += ["head%d" % d, "tail%d" % d] + ["buf%d_%d" % (d, i) for i in range(B.m)]
         for l in range(B.nl + 1):
             v.append("own%d" % l)
+        for name in sorted(self.facts.transport_attrs):
+            v += ["A_%s_%s" % (name, x) for x in "tab"]  # plain instance attributes of the transport: shared, mutable
         for t in range(self.nthreads):
             P = self.prog(t)
             v += ["pc%d" % t, "err%d" % t, "call%d" % t, "nlog%d" % t] + ["log%d_%d" % (t, i) for i in range(B.logn)]
@@ -509,8 +517,28 @@ class Encoding:
             nd += 1
             nl += 1
             s["Qp%d" % c], s["Qd%d" % c], s["Ql%d" % c], s["Qo%d" % c] = _I(1), _I(nd), _I(nl), _I(order)
+            for k, m in enumerate(self.premsgs.get(ch, [])):
+                s["buf%d_%d" % (nd, k)] = _I(m)
+            s["tail%d" % nd] = _I(len(self.premsgs.get(ch, [])))
             order += 1
         s["nd"], s["nl"], s["ordctr"] = _I(nd), _I(nl), _I(order)
+        for name, val in self.facts.transport_attrs.items():
+            s["A_%s_t" % name] = _I(NONE if val is None else BOOL)
+            s["A_%s_a" % name] = _I(0 if val is None else int(val))
+            ia = self.init_attrs.get(name)
+            if ia is None:
+                continue
+            if ia[0] == "none":
+                s["A_%s_t" % name], s["A_%s_a" % name] = _I(NONE), _I(0)
+            elif ia[0] == "bool":
+                s["A_%s_t" % name], s["A_%s_a" % name] = _I(BOOL), _I(int(ia[1]))
+            elif ia[0] == "chan" and ia[1] in self.channels:
+                s["A_%s_t" % name], s["A_%s_a" % name] = _I(CHAN), _I(self.channels.index(ia[1]))
+            elif ia[0] == "pair" and ia[1] in self.channels:
+                c = self.channels.index(ia[1])
+                s["A_%s_t" % name], s["A_%s_a" % name], s["A_%s_b" % name] = _I(PAIR), s["Qd%d" % c], s["Ql%d" % c]
+            else:
+                raise Unsupported("attribute %s holds a value after the set-up phase that the model cannot represent (%r)" % (name, ia))
         for t in range(self.nthreads):
             P = self.prog(t)
             s["pc%d" % t] = _I(P.entry)
@@ -782,8 +810,8 @@ class Encoding:
                 if e.attr in self.facts.instance_locks:
                     return V(LOCK, self.facts.instance_locks[e.attr])
                 if e.attr in self.facts.transport_attrs:
-                    val = self.facts.transport_attrs[e.attr]
-                    return V(NONE) if val is None else V(BOOL, int(val))
+                    pfx = "A_%s_" % e.attr
+                    return V(fr.get(pfx + "t"), fr.get(pfx + "a"), fr.get(pfx + "b"), frozenset(ALL_TAGS))
             else:
                 if e.attr == "_closed":
                     return V(BOOL, 0)
@@ -830,9 +858,24 @@ class Encoding:
                     fr.error(z3.Not(present), guard)  # KeyError
                 return V(PAIR, self._qget(fr, key.a, "d"), self._qget(fr, key.a, "l"))
             base = self.ev(fr, e.value, guard)
-            if isinstance(e.slice, ast.Constant) and e.slice.value in (0, 1):
-                fr.error(base.tag != PAIR, guard)
-                return V(DEQUE, base.a) if e.slice.value == 0 else V(LOCK, base.b)
+            idx = e.slice.value if isinstance(e.slice, ast.Constant) else (-e.slice.operand.value if isinstance(e.slice, ast.UnaryOp) and isinstance(e.slice.op, ast.USub) and isinstance(e.slice.operand, ast.Constant) else None)
+            if idx in (0, 1, -1):
+                # pair[0] / pair[1] / pair[-1]; deque[0] / deque[-1] peek (IndexError when empty)
+                is_dq = base.tag == DEQUE
+                g = fr.error(z3.And(base.tag != PAIR, z3.Not(is_dq)), guard)
+                if idx == 1:
+                    fr.overflow(is_dq, g)  # deque[1] is not modelled
+                g = fr.error(z3.And(is_dq, self._dq_len(fr, base.a) <= 0), g)
+                head, tail = self._dq(fr, base.a, "head"), self._dq(fr, base.a, "tail")
+                peek = V(MSG, self._buf(fr, base.a, head if idx == 0 else tail - 1))
+                pairv = V(DEQUE, base.a) if idx == 0 else V(LOCK, base.b)
+                may_dq = base.tags is None or DEQUE in base.tags
+                may_pair = base.tags is None or PAIR in base.tags
+                if may_dq and not may_pair:
+                    return peek
+                if may_pair and not may_dq:
+                    return pairv
+                return vite(is_dq, peek, pairv)
             raise Unsupported("subscript")
         if isinstance(e, ast.Call):
             return self._call(fr, e, guard)
@@ -855,8 +898,13 @@ class Encoding:
                 raise Unsupported("`is` with a non-None operand")
             c = l.tag == NONE
             return V(BOOL, _b2i(c if isinstance(op, ast.Is) else z3.Not(c)))
+        if isinstance(op, (ast.Eq, ast.NotEq)):
+            # identity-like equality of modelled values: same kind and same object / number (messages, channels, None ...)
+            same = z3.And(l.tag == r.tag, z3.Or(l.tag == NONE, z3.And(l.a == r.a, z3.Or(l.tag != PAIR, l.b == r.b))))
+            fr.overflow(z3.Or(l.tag == OPAQUE, r.tag == OPAQUE), guard)
+            return V(BOOL, _b2i(same if isinstance(op, ast.Eq) else z3.Not(same)))
         both_int = z3.And(l.tag == INT, r.tag == INT)
-        fr.overflow(z3.Not(both_int), guard)  # comparisons are modelled on ints only
+        fr.overflow(z3.Not(both_int), guard)  # order comparisons are modelled on ints only
         tbl = {ast.Eq: l.a == r.a, ast.NotEq: l.a != r.a, ast.Lt: l.a < r.a, ast.LtE: l.a <= r.a, ast.Gt: l.a > r.a, ast.GtE: l.a >= r.a}
         if type(op) not in tbl:
             raise Unsupported("comparison %s" % type(op).__name__)
@@ -982,6 +1030,13 @@ class Encoding:
                 targets, value = st.targets, st.value
             else:
                 raise Unsupported("statement %s" % type(st).__name__)
+            if len(targets) == 1 and isinstance(targets[0], ast.Tuple) and isinstance(value, ast.Tuple) and len(targets[0].elts) == len(value.elts) and not (len(value.elts) == 2 and all(isinstance(x, ast.Name) for x in targets[0].elts)):
+                # a, b = x, y : all right-hand sides first, then the targets from left to right
+                vals = [self.ev(fr, x, guard) for x in value.elts]
+                g = guard if fr.miss is None else z3.And(guard, z3.Not(fr.miss))
+                for tg, v in zip(targets[0].elts, vals):
+                    self._assign(fr, tg, v, g)
+                return
             v = self.ev(fr, value, guard)
             g = guard if fr.miss is None else z3.And(guard, z3.Not(fr.miss))
             for tg in targets:
@@ -992,6 +1047,12 @@ class Encoding:
     def _assign(self, fr: Frame, tg, v: V, guard):
         if isinstance(tg, ast.Name):
             fr.setreg(tg.id, v, guard)
+        elif isinstance(tg, ast.Attribute) and isinstance(tg.value, ast.Name) and tg.value.id == "self" and self.threads[fr.t][0] == "pub" and tg.attr in self.facts.transport_attrs:
+            pfx = "A_%s_" % tg.attr
+            fr.set(pfx + "t", v.tag, guard)
+            fr.set(pfx + "a", v.a, guard)
+            fr.set(pfx + "b", v.b, guard)
+            fr.dirty = True
         elif isinstance(tg, ast.Tuple) and len(tg.elts) == 2:
             g = fr.error(v.tag != PAIR, guard)  # unpacking None / a non-pair raises
             self._assign(fr, tg.elts[0], V(DEQUE, v.a), g)
@@ -1111,7 +1172,7 @@ class Encoding:
         # of every step of every other thread, so {that step} is a persistent set: schedules are restricted to those that
         # take such a step at once (lowest thread first).  Only added to the unwinding / capacity / property queries --
         # conformance schedules come from the real scheduler and need not be canonical.
-        shared_names = {n for n in names if n in ("ordctr", "nd", "nl") or n[:2] in ("Qp", "Qd", "Ql", "Qo") or n.startswith(("head", "tail", "buf", "own"))}
+        shared_names = {n for n in names if n in ("ordctr", "nd", "nl") or n[:2] in ("Qp", "Qd", "Ql", "Qo") or n.startswith(("head", "tail", "buf", "own", "A_"))}
         shared_ids = {cur[n].get_id() for n in shared_names}
         self.invisible: Dict[Tuple[int, int], bool] = {}
         for (t, node, en, ov) in actions:
@@ -1191,10 +1252,9 @@ class Encoding:
         out["duplicated"] = z3.Or(*dup) if dup else z3.BoolVal(False)
         # order: m1 published before m2 by the same thread on the same channel
         reo = []
-        for t, th in enumerate(self.threads):
-            if th[0] != "pub":
-                continue
-            for (i, (c1, m1)), (j, (c2, m2)) in itertools.combinations(list(enumerate(th[1])), 2):
+        sequences = [th[1] for th in self.threads if th[0] == "pub"] + [[(self.channels.index(ch), m) for m in mids] for ch, mids in self.premsgs.items()]
+        for seq in sequences:
+            for (i, (c1, m1)), (j, (c2, m2)) in itertools.combinations(list(enumerate(seq)), 2):
                 if c1 != c2:
                     continue
                 for s_ in subs:
@@ -1215,6 +1275,13 @@ class Encoding:
             for i in range(B.logn):
                 pm.append(z3.And(st["nlog%d" % s_] > i, z3.Not(z3.Or(*[st["log%d_%d" % (s_, i)] == m for m in okm])) if okm else z3.BoolVal(True)))
         out["pattern-mismatch"] = z3.Or(*pm) if pm else z3.BoolVal(False)
+        # a message sitting in the queue of a channel it was not published to (an exact-name subscription would yield it)
+        mis = []
+        for m in msgs:
+            for c in range(B.nchan):
+                if c != self.msg_chan[m]:
+                    mis += in_rem(c, m)
+        out["misrouted"] = z3.Or(*mis) if mis else z3.BoolVal(False)
         return out
 
     def check(self, *extra, timeout_ms=600000, por=False):
